@@ -274,7 +274,7 @@ def run(tier: str) -> int:
             if tier == "quick" and bi and not name.startswith(("dash", "last", "in_string:", "each:")):
                 continue
             items.append(dict(name=name, parts=parts, base=bi))
-    results = harness.pmap(task, items)
+    results = harness.pmap(task, items, placeholder=lambda it, st, d: dict(name=it["name"], base=it["base"], status="inconclusive", detail=f"{st}: {d}", paths=0, strings=0, problems=[], skipped_ambiguous=0))
     strings = 0
     nontrivial = 0
     for spec_, r in zip(items, results):
